@@ -120,9 +120,10 @@ reg("C09", exc_ops=set(), nontrivial=nt_pages, hook="pagination", obs_fail=False
     profile={"raw": 0.0, "long": 0.2, "nlrus": 18, "extend": 0.3, "continue": 0.55, "concentrate": 1}, steps=(24, 32),
     title="Page pagination")
 reg("C10", exc_ops=set(), nontrivial=nt_links, hook="paglinks", obs_fail=False,
-    weights={"PagLinks": 40, "AddLinks": 24, "IndexBatchCrawl": 12, "AddPage": 14, "CreateWe": 8, "AddPrefix": 8,
+    weights={"PagLinks": 40, "AddLinks": 30, "IndexBatchCrawl": 12, "AddPage": 12, "CreateWe": 12, "AddPrefix": 8,
              "Clear": 0, "DeleteWe": 1, "RemovePrefix": 1, "MovePrefix": 2},
-    profile={"raw": 0.0, "long": 0.2, "nlrus": 16, "extend": 0.2, "continue": 0.8, "concentrate": 1}, steps=(24, 32),
+    profile={"raw": 0.0, "long": 0.2, "nlrus": 16, "extend": 0.2, "continue": 0.8, "concentrate": 1,
+             "homelinks": 0.45}, steps=(24, 32), n=(160, 2000),
     title="Pagelink pagination")
 reg("C11", exc_ops={"Reopen", "Clear", "Recreate"}, nontrivial=nt_pages, hook="life",
     roles=[("file", ()), ("file", ("Reopen",))], pairname="C11.twin", prefixes=["C11."],
